@@ -11,6 +11,8 @@ Helper lemmas for L6 `DtRes` (used by `RTV/Props/C06.lean`, `RTV/Props/C07.lean`
   two-digit-year pivot lemmas
 * designators through the `suffix` group: `adjustBySuffix_plain`, `resolveTime_designator`
 * ChineseTimeParser: `zhHandle_digit`, `zhPack_digit`, `resolveTimeZh_digit`
+* word shift of `merge_date_and_time`: `mergeHour`, `merge_clock_words`, `matchToTime_designator`,
+  `resolveDateAtTime_designator`
 * `<date> at <time>`: `merge_clock`, `allStrToPm_one` (`all_str_to_pm` on `<prefix>Thh<suffix>`),
   `dtRes_datetime_plain/ampm`, `resolveDateAtTime_clock`
 -/
@@ -1046,6 +1048,98 @@ theorem resolveDateZh_valid (u : Uni) (cfg : DateCfg) (g : DateGroups) (chsYear 
   simp only [resolveDateZh, matchToDateZh_of u cfg g chsYear y mo d ref h (by omega), safeCreate_valid y mo d hv, bind,
     Except.bind, Option.getD_some]
   exact dtRes_date u y mo d h1 h2
+
+
+
+/-! ### `merge_date_and_time` with the morning / afternoon / night words -/
+
+/-- the hour after the "morning / afternoon / night word in the text" step of `merge_date_and_time` -/
+def mergeHour (shift pmT amT : Bool) (hh : Nat) : Nat :=
+  if shift && pmT && hh < 12 then hh + 12 else if shift && amT && hh ≥ 12 then hh - 12 else hh
+
+theorem mergeHour_lt (shift pmT amT : Bool) (hh : Nat) (h : hh < 24) : mergeHour shift pmT amT hh < 24 := by
+  unfold mergeHour
+  split
+  · rename_i c; simp at c; omega
+  · split <;> omega
+
+/-- `merge_date_and_time` of a resolved date and a decoded clock time, for any outcome of the PM / AM word regexes and
+either variant of the word shift -/
+theorem merge_clock_words (c : Clock) (w60 : c.m < 60 ∧ c.s < 60) (hh : Nat) (h24 : hh < 24) (dtx cm : Str) (y mo d : Nat)
+    (hv : (⟨y, mo, d⟩ : Date).valid = true) (tv : DT) (htv : tv.hh = hh ∧ tv.mi = c.m ∧ tv.ss = c.s)
+    (pmT amT only : Bool) :
+    mergeDateAndTime (toSlot .date (Res.mk true dtx [] ⟨y, mo, d, 0, 0, 0⟩ ⟨y, mo, d, 0, 0, 0⟩))
+        (toSlot .time (Res.mk true (c.timex hh) cm tv tv)) pmT amT only =
+      .ok (Res.mk true (dtx ++ c.timex (mergeHour (!only || cm == sAmPm) pmT amT hh))
+        (if mergeHour (!only || cm == sAmPm) pmT amT hh ≤ 12 ∧ (pmT && amT) = false ∧ cm ≠ [] then sAmPm else [])
+        ⟨y, mo, d, mergeHour (!only || cm == sAmPm) pmT amT hh, c.m, c.s⟩
+        ⟨y, mo, d, mergeHour (!only || cm == sAmPm) pmT amT hh, c.m, c.s⟩) := by
+  obtain ⟨e1, e2, e3⟩ := htv
+  have hlt := mergeHour_lt (!only || cm == sAmPm) pmT amT hh h24
+  have mk := mkDateTime_ok ⟨y, mo, d, 0, 0, 0⟩ (by simpa [DT.date] using hv) _ c.m c.s hlt w60.1 w60.2
+  simp only at mk
+  have e : ∀ k, 84 :: (fmtD 2 ((k : Nat) : Int) ++ c.tail) = c.timex k := fun _ => rfl
+  have mh : (if ((!only || cm == sAmPm) && pmT && decide (hh < 12)) = true then hh + 12
+      else if ((!only || cm == sAmPm) && amT && decide (hh ≥ 12)) = true then hh - 12 else hh) =
+      mergeHour (!only || cm == sAmPm) pmT amT hh := by
+    simp [mergeHour]
+  simp only [mergeDateAndTime, toSlot, if_true, e1, e2, e3, timex_not_ampm c w60 hh (by omega), Bool.false_eq_true, if_false,
+    timex_drop3 c hh (by omega), mh, mk, e]
+  congr 2
+  cases cm <;> cases pmT <;> cases amT <;> simp
+
+
+/-- `match_to_time` on a digit clock time followed by a plain designator phrase (suffix group) -/
+theorem matchToTime_designator (u : Uni) (cfg : TimeCfg) (st : SuffixStyle) (si : SuffixInfo) (pm : Bool)
+    (hd : PlainDesignator si pm) (hst : st.simple = true ∨ st.elsePm = true ∨ pm = false)
+    (hcfg : ∀ s a, cfg.adjustBySuffix s a = .ok (adjustBySuffixG st si a))
+    (c : Clock) (wf : c.WF u) (h1 : 1 ≤ c.h) (h12 : c.h ≤ 12) (sfx : Str) (hsfx : blank u sfx = false)
+    (ref : DT) (hv : ref.date.valid = true) :
+    matchToTime u cfg (c.groupsSfx sfx) ref =
+      .ok (Res.mk true (c.timex (c.h % 12 + if pm then 12 else 0)) []
+        ⟨ref.y, ref.m, ref.d, c.h % 12 + (if pm then 12 else 0), c.m, c.s⟩
+        ⟨ref.y, ref.m, ref.d, c.h % 12 + (if pm then 12 else 0), c.m, c.s⟩) := by
+  have w60 := wf_m60 u c wf
+  obtain ⟨hasAm, hadj, hflag⟩ := adjustBySuffix_plain st si pm hd hst c.h h1 h12 c.m c.ms.isSome
+  have pf : blank u (c.groupsSfx sfx).pfx = true := blank_nil u
+  have sf : blank u (c.groupsSfx sfx).sfx = false := hsfx
+  have hh24 : c.h % 12 + (if pm then 12 else 0) < 24 := by split <;> omega
+  simp only [matchToTime, decode_clock_sfx u cfg c sfx wf (Or.inr (by omega)), descAdjust_sfx, pf, sf, bind,
+    Except.bind, pure, Except.pure, Bool.not_true, Bool.not_false, Bool.false_eq_true, if_false, if_true, hcfg, hadj]
+  rw [assembleTime_ok ref hv _ _ _ _ _ _ _ hh24 w60.1 w60.2]
+  have nc : ¬ (0 < c.h % 12 + (if pm then 12 else 0) ∧ c.h % 12 + (if pm then 12 else 0) ≤ 12 ∧ pm = false ∧ hasAm = false) := by
+    rintro ⟨a, b, rfl, rfl⟩
+    rcases hflag with h | h | h
+    · exact absurd h (by simp)
+    · exact absurd h (by simp)
+    · simp [h] at a
+  simp only [nc, if_false]
+  have et : (84 :: fmtD 2 ((c.h % 12 + (if pm then 12 else 0) : Nat) : Int)) ++ (if c.ms.isSome then sColon ++ fmtD 2 (c.m : Int) else []) ++
+      (if c.ss.isSome then sColon ++ fmtD 2 (c.s : Int) else []) = c.timex (c.h % 12 + (if pm then 12 else 0)) := by
+    simp only [Clock.timex, Clock.tail, Clock.m, Clock.s]
+    cases c.ms <;> cases c.ss <;> simp
+  rw [et]
+
+/-- `<date> at <h[:mm[:ss]]> <designator phrase>`: the composed datetime, for any outcome of the PM / AM word regexes of
+`merge_date_and_time` and either variant of the word shift. The hour is `mergeHour (!only) …` of the designated hour. -/
+theorem resolveDateAtTime_designator (u : Uni) (dcfg : DateCfg) (hmax : dcfg.maxTwoDigitYearFuture ≤ 100)
+    (dg : DateGroups) (y mo d : Nat) (hdec : Decodes u dcfg dg y mo d) (hy : 1000 ≤ y ∧ y ≤ 9999)
+    (hvd : (⟨y, mo, d⟩ : Date).valid = true) (wy : Int) (tcfg : TimeCfg) (st : SuffixStyle) (si : SuffixInfo) (pm : Bool)
+    (hd : PlainDesignator si pm) (hst : st.simple = true ∨ st.elsePm = true ∨ pm = false)
+    (hcfg : ∀ s a, tcfg.adjustBySuffix s a = .ok (adjustBySuffixG st si a))
+    (c : Clock) (wf : c.WF u) (h1 : 1 ≤ c.h) (h12 : c.h ≤ 12) (sfx : Str) (hsfx : blank u sfx = false)
+    (pmT amT only : Bool) (ref : DT) (hv : ref.date.valid = true) :
+    resolveDateAtTime u dcfg dg wy tcfg (c.groupsSfx sfx) pmT amT ref only =
+      .ok (some [c.dtValue y mo d (mergeHour (!only) pmT amT (c.h % 12 + if pm then 12 else 0))]) := by
+  have w60 := wf_m60 u c wf
+  have hh24 : c.h % 12 + (if pm then 12 else 0) < 24 := by split <;> omega
+  have hp : pivotYear dcfg y = y := pivot_four dcfg y (by omega) hmax
+  have ne : (([] : Str) == sAmPm) = false := by decide
+  simp only [resolveDateAtTime, matchToDate_of u dcfg dg y mo d y wy ref hdec hp (by omega), safeCreate_valid y mo d hvd,
+    matchToTime_designator u tcfg st si pm hd hst hcfg c wf h1 h12 sfx hsfx ref hv, bind, Except.bind, Option.getD_some]
+  rw [merge_clock_words c w60 _ hh24 _ _ y mo d hvd _ ⟨rfl, rfl, rfl⟩ pmT amT only]
+  simp only [ne, Bool.or_false, ne_eq, not_true_eq_false, and_false, if_false]
+  exact dtRes_datetime_plain u _ y mo d _ c.m c.s (by omega) (by omega)
 
 
 end RTV.DtRes
